@@ -34,10 +34,17 @@ func c11Watchdog(name string, d time.Duration, f func()) {
 	case <-time.After(d):
 		buf := make([]byte, 1<<20)
 		n := runtime.Stack(buf, true)
+		if c11LockDep != nil {
+			for _, l := range c11LockDep.report() {
+				fmt.Println(l)
+			}
+		}
 		fmt.Printf("C11-DEADLOCK %s\n%s\n", name, buf[:n])
 		os.Exit(3)
 	}
 }
+
+var c11LockDep *lockDep
 
 // TestC11Race is the workload; it only runs in the child process started by TestC11.
 func TestC11Race(t *testing.T) {
@@ -49,6 +56,16 @@ func TestC11Race(t *testing.T) {
 	if Thorough() {
 		dur = 12 * time.Second
 	}
+	// every lock operation of the client's structures is reported to the lock-order checker
+	ld := newLockDep()
+	c11LockDep = ld
+	client.VerifLockEvent = ld.event
+	defer func() {
+		client.VerifLockEvent = nil
+		for _, l := range ld.report() {
+			fmt.Println(l)
+		}
+	}()
 	spns := []string{"HTTP/a.test.gokrb5", "HTTP/b.test.gokrb5", "host/c.test.gokrb5", "HTTP/svc.other.realm", "HTTP/svc.third.realm", "ldap/d.test.gokrb5"}
 	// S1: one logged-in client shared by goroutines; tickets live 4 s, so renewals and re-logins happen in
 	// the background while service tickets are requested, served from the cache and re-requested
@@ -506,6 +523,20 @@ func TestC11(t *testing.T) {
 	if strings.Contains(text, "C11-DEADLOCK") {
 		i := strings.Index(text, "C11-DEADLOCK")
 		v.Violate("failing-input", "c11:deadlock", "the workload stalled: goroutines sharing a client did not finish (deadlock or livelock)", map[string]string{"dump": cut(text[i:], 6000)})
+	}
+	for _, l := range strings.Split(text, "\n") {
+		if strings.HasPrefix(l, "C11-LOCK-ORDER ") || strings.HasPrefix(l, "C11-LOCK-RECURSIVE ") {
+			f := strings.Fields(l)
+			sig := "c11:lock-order:" + strings.Join(f[1:], " ")
+			if i := strings.Index(sig, " ["); i > 0 {
+				sig = sig[:i]
+			}
+			what := "locks of the client are acquired in an order that has a cycle: goroutines taking them in opposite orders can block each other for ever"
+			if f[0] == "C11-LOCK-RECURSIVE" {
+				what = "a goroutine acquires a lock it already holds (with sync.RWMutex a second read lock behind a waiting writer never returns)"
+			}
+			v.Violate("failing-input", sig, what, map[string]string{"finding": l})
+		}
 	}
 	for _, key := range []string{"C11-PAIR-MISMATCH", "C11-KDCS-NOT-A-PERMUTATION", "C11-KPASSWD-NOT-A-PERMUTATION"} {
 		if i := strings.Index(text, key); i >= 0 {
